@@ -29,7 +29,8 @@ def cvc5_check(solver, timeout_ms):
         smt = solver.to_smt2()
     except Exception:
         return 'unknown', 0.0
-    smt = '(set-logic ALL)\n' + smt
+    # z3 prints its internal in-bounds / out-of-bounds variants of seq.nth; both are instances of the total seq.nth
+    smt = '(set-logic ALL)\n' + smt.replace('seq.nth_i', 'seq.nth').replace('seq.nth_u', 'seq.nth')
     t = time.time()
     with tempfile.NamedTemporaryFile('w', suffix='.smt2', delete=False, dir=os.environ.get('TMPDIR', '/tmp')) as f:
         f.write(smt); fn = f.name
@@ -75,6 +76,14 @@ def second_pass(ob, extra_hyps=(), timeout_ms=10000, refute=True, use_cvc5=True)
     `refute` -- model search on small instances (R4), then cvc5.  unknown is never a violation."""
     hyps = list(extra_hyps) + list(ob.hyps)
     t_each = max(1500, timeout_ms // 4)
+    if use_cvc5 and ob.time < 1.5:
+        # z3 gave up at once (incomplete string / sequence reasoning): cvc5 is the better first choice (R2)
+        sd = Solver(); sd.add(*hyps); sd.add(Not(ob.goal))
+        res, dt2 = cvc5_check(sd, timeout_ms)
+        ob.time += dt2
+        if res == 'unsat':
+            ob.result = 'proved'; ob.backend = 'cvc5'; return ob
+        use_cvc5 = False
     if refute:
         # R4': ground instantiation of the universally quantified hypotheses over a small index range.  This WEAKENS the
         # hypotheses, so a model found here is only a candidate: it counts as a refutation only if the native replay of the
@@ -176,3 +185,22 @@ def expand_foralls(e, lo, hi, maxvars=2):
     if z3.is_implies(e):
         return z3.Implies(e.arg(0), expand_foralls(e.arg(1), lo, hi, maxvars))
     return e
+
+
+_SPEED = None
+
+
+def speed_factor():
+    """how much slower than the development machine this process currently runs (>= 1): a fixed reference query is timed once per
+    process, so that solver budgets scale with the load of the machine and verdicts do not flip under contention (R3)"""
+    global _SPEED
+    if _SPEED is None:
+        w, s_, D, a, b = z3.Ints('cal_w cal_s cal_D cal_a cal_b')
+        dens = [w >= 1, s_ >= 1, D >= 1, D * s_ >= w, (D - 1) * s_ < w]
+        t = time.time()
+        sv = Solver(); sv.set('timeout', 120000)
+        sv.add(*dens); sv.add(a % s_ == 0, b % s_ == 0, 0 <= a, a < b, (a / s_) % D == (b / s_) % D, Not(b - a >= w))
+        sv.check()
+        dt = time.time() - t
+        _SPEED = min(8.0, max(1.0, dt / 0.25))
+    return _SPEED
